@@ -3,3 +3,4 @@ pub mod wincon_sys;
 pub mod parser_sys;
 pub mod strip_sys;
 pub mod fault_sys;
+pub mod stdio_sys;
